@@ -38,9 +38,49 @@ def strip(text):
     return STRIP_RE.sub("", text)
 
 
+# conditional blocks that the real build never compiles (no build system of
+# /repo defines these; DESIGN.md section 3): their text is blanked so that the
+# brace structure seen by the scanner is the one the compiler sees
+NEVER_DEFINED = ("TRAIN_RES", "TRAIN_RESAUX", "TRAIN_FLOOR1", "TRAIN_LSP", "ANALYSIS", "_V_SELFTEST", "DEBUG_MALLOC")
+_COND_DEAD = re.compile(r"^[ \t]*#[ \t]*(?:ifdef[ \t]+(?:%s)\b|if[ \t]+(?:0\b|defined[ \t]*\(?[ \t]*(?:%s)\b\)?(?:[ \t]*\|\|[ \t]*defined[ \t]*\(?[ \t]*(?:%s)\b\)?)*[ \t]*(?:/\*.*)?$))" % (("|".join(NEVER_DEFINED),) * 3))
+_COND_ANY = re.compile(r"^[ \t]*#[ \t]*(if|ifdef|ifndef|else|elif|endif)\b")
+
+
+def _blank_dead_conditionals(src):
+    """Same-length copy of src with the bodies of `#ifdef X` / `#if defined(X)||...` /
+    `#if 0` blocks (X never defined by the build) replaced by spaces, up to the
+    matching #else / #endif."""
+    lines = src.split("\n")
+    out = []
+    i = 0
+    dead_depth = None   # nesting depth at which a dead block started
+    depth = 0
+    for ln in lines:
+        m = _COND_ANY.match(ln)
+        kill = dead_depth is not None
+        if m:
+            kw = m.group(1)
+            if kw in ("if", "ifdef", "ifndef"):
+                depth += 1
+                if dead_depth is None and _COND_DEAD.match(ln):
+                    dead_depth = depth
+            elif kw in ("else", "elif"):
+                if dead_depth == depth:
+                    dead_depth = None
+                    kill = False
+            elif kw == "endif":
+                if dead_depth == depth:
+                    dead_depth = None
+                    kill = False
+                depth -= 1
+        out.append(" " * len(ln) if (kill and not m) else ln)
+    return "\n".join(out)
+
+
 def _blank_noncode(src):
     """Return a same-length string where comments, string/char literals and
     preprocessor lines are replaced by spaces (newlines kept)."""
+    src = _blank_dead_conditionals(src)
     out = list(src)
     i, n = 0, len(src)
     bol = True  # at beginning of line (only whitespace so far)
